@@ -27,7 +27,16 @@ Definition hashable (p : str) : str := ddp_prefix ++ flat_map esc_char p.
 Definition init_name (p : str) : str := hashable p ++ init_suffix.
 Definition dispose_name (p : str) : str := hashable p ++ dispose_suffix.
 
+(* a parameter type of a generic instantiation: its printed name and the path of the module that declares it
+   (builtin types: the empty path) *)
+Definition tyarg := (str * str)%type.
+
 Section Mangle.
   Variable hash : str -> str.
   Definition mangled (n : str) (p : str) : str * str := (n, hash (hashable p)).
+  (* mangledNameDecl for a generic instantiation: <fn>_generic_<names of the parameter types>, mangled with the
+     instantiating module p.  instantiationTypeName names a declared type together with its module
+     (mangledNameType: name ++ "_mod_" ++ hex(hash(module name)), modelled as a pair like `mangled`) *)
+  Definition inst_symbol (fn : str) (targs : list tyarg) (p : str) : str * list (str * str) * str :=
+    (fn, map (fun t => (fst t, hash (hashable (snd t)))) targs, hash (hashable p)).
 End Mangle.
